@@ -67,10 +67,10 @@ int64_t carquet_decode_plain_int32(
         return -1;
     }
 
-    size_t bytes_needed = (size_t)count * 4;
-    if (input_size < bytes_needed) {
+    if ((uint64_t)count > input_size / 4) {  /* by division: count * size may not fit in size_t */
         return -1;
     }
+    size_t bytes_needed = (size_t)count * 4;
 
 #if CARQUET_LITTLE_ENDIAN && !defined(CARQUET_STRICT_ALIGN)
     /* Fast path: direct memory copy on little-endian systems */
@@ -94,10 +94,10 @@ int64_t carquet_decode_plain_int64(
         return -1;
     }
 
-    size_t bytes_needed = (size_t)count * 8;
-    if (input_size < bytes_needed) {
+    if ((uint64_t)count > input_size / 8) {  /* by division: count * size may not fit in size_t */
         return -1;
     }
+    size_t bytes_needed = (size_t)count * 8;
 
 #if CARQUET_LITTLE_ENDIAN && !defined(CARQUET_STRICT_ALIGN)
     memcpy(output, input, bytes_needed);
@@ -120,10 +120,10 @@ int64_t carquet_decode_plain_int96(
         return -1;
     }
 
-    size_t bytes_needed = (size_t)count * 12;
-    if (input_size < bytes_needed) {
+    if ((uint64_t)count > input_size / 12) {  /* by division: count * size may not fit in size_t */
         return -1;
     }
+    size_t bytes_needed = (size_t)count * 12;
 
     for (int64_t i = 0; i < count; i++) {
         const uint8_t* p = input + i * 12;
@@ -145,10 +145,10 @@ int64_t carquet_decode_plain_float(
         return -1;
     }
 
-    size_t bytes_needed = (size_t)count * 4;
-    if (input_size < bytes_needed) {
+    if ((uint64_t)count > input_size / 4) {  /* by division: count * size may not fit in size_t */
         return -1;
     }
+    size_t bytes_needed = (size_t)count * 4;
 
 #if CARQUET_LITTLE_ENDIAN && !defined(CARQUET_STRICT_ALIGN)
     memcpy(output, input, bytes_needed);
@@ -171,10 +171,10 @@ int64_t carquet_decode_plain_double(
         return -1;
     }
 
-    size_t bytes_needed = (size_t)count * 8;
-    if (input_size < bytes_needed) {
+    if ((uint64_t)count > input_size / 8) {  /* by division: count * size may not fit in size_t */
         return -1;
     }
+    size_t bytes_needed = (size_t)count * 8;
 
 #if CARQUET_LITTLE_ENDIAN && !defined(CARQUET_STRICT_ALIGN)
     memcpy(output, input, bytes_needed);
@@ -231,10 +231,10 @@ int64_t carquet_decode_plain_fixed_byte_array(
         return -1;
     }
 
-    size_t bytes_needed = (size_t)count * (size_t)fixed_len;
-    if (input_size < bytes_needed) {
+    if ((uint64_t)count > input_size / (size_t)fixed_len) {  /* by division: count * size may not fit in size_t */
         return -1;
     }
+    size_t bytes_needed = (size_t)count * (size_t)fixed_len;
 
     memcpy(output, input, bytes_needed);
     return (int64_t)bytes_needed;
